@@ -37,6 +37,16 @@ pub fn parse_prefix(b: &[u8]) -> (u8, u64, usize) {
     (t, u64::from_le_bytes(s), 1 + n)
 }
 
+/// Kind of the datagram a server result sends back (for discriminators).
+fn parse_prefix_name(res: &Res) -> &'static str {
+    match res {
+        Res::Send { bytes, .. } => tname(parse_prefix(bytes).0),
+        Res::Connected { .. } => "KeepAlive",
+        Res::Disconnected { .. } => "Disconnect",
+        _ => "none",
+    }
+}
+
 pub fn tname(t: u8) -> &'static str {
     match t {
         T_REQUEST => "Request",
@@ -424,6 +434,17 @@ impl WorldB {
                 }
                 if len >= in_len {
                     obs.violate("C19", "reply-not-smaller-than-request", tname(ptype), format!("input {} bytes reply {} bytes", in_len, len));
+                }
+                // a connect token is valid from one address only: once a challenge went out for it, the token is bound to that
+                // address and the same token from anywhere else carries no valid token any more
+                let bound_elsewhere = ptype == T_REQUEST && !bogus && rec_tid.and_then(|t| self.tokens[t].first_addr).map(|a| a != src).unwrap_or(false);
+                if bound_elsewhere {
+                    obs.violate(
+                        "C19",
+                        "reply-to-token-bound-to-another-address",
+                        parse_prefix_name(&res),
+                        format!("token {:?} was challenged at {:?}, request from {} got a {} byte reply", rec_tid, rec_tid.and_then(|t| self.tokens[t].first_addr), src, len),
+                    );
                 }
                 if !(valid_request_model || valid_response_model) {
                     obs.violate(
